@@ -49,6 +49,8 @@ Next ==
         \/ \E d \in {R(S)} : Step(Op("srs", d, R({0, 1, 4, 5, 128, 255}), 0, "", <<>>), [st EXCEPT ![d] = "ok"])
         \* a point built from the y side: canonical y at the boundary of the sign choice ((p-1)/2 limb by limb, p-1)
         \/ \E d \in {R(S)} : Step(Op("ypt", d, R(0 .. 40), 0, R({"yhalf", "yhalf64", "yhalf128", "yhalf192", "ytop"}), <<>>), [st EXCEPT ![d] = "ok"])
+        \* a distinguished element (G, -G, 2G, identity, SRS[0], -SRS[0]) in a chosen raw representative
+        \/ \E d \in {R(S)} : Step(Op("spt", d, R(0 .. 5), 0, R({"norm", "flip", "proj", "projflip"}), <<>>), [st EXCEPT ![d] = "ok"])
         \* a point built from its ratio x/y, at a boundary of the reduction into the scalar field (next to k*r, to p, to 0, to a limb boundary)
         \/ \E d \in {R(S)} : Step(Op("rpt", d, R(0 .. 40), 0, R({"kr-", "kr+", "krlow", "nearp", "small", "limb"}), <<>>), [st EXCEPT ![d] = "ok"])
         \/ \E d \in {R(S)} : Cardinality(OkSlots \ {d}) >= 3 /\ Step(Op("zero", d, 0, 0, "", <<>>), [st EXCEPT ![d] = "zero"])
